@@ -55,6 +55,13 @@ def run(ctx):
             t = "".join(rng.choice(codes if rng.random() < 0.8 else "N") for _ in range(L if rng.random() < 0.95 else L + 1))
             reqs.append(("add_constraints", [s, t, rna]))
             rand_cases.append({"kind": "add", "a": s, "b": t, "material": "RNA" if rna else "DNA"})
+        # sequences over small sub-alphabets (self-complementary codes, purines/pyrimidines, ...): non-palindromic ones
+        for _ in range(400 if quick else 6000):
+            rna = rng.random() < 0.5
+            alpha = rng.choice(["SWN", "SW", "N", "RY", "KM", "BDHV", "AU" if rna else "AT", "CG", "SWNRY"])
+            s = "".join(rng.choice(alpha) for _ in range(rng.choice([2, 3, 4, 7, 12])))
+            reqs.append((rng.choice(fns), [s, rna]))
+            rand_cases.append({"kind": "seq", "seq": s, "material": "RNA" if rna else "DNA"})
         diffs = correspond(ctx, "iupac", reqs)
         # the legacy SequenceConstraint shares nothing with these functions: the same requests after calls into the legacy class
         # (both materials, any order) and into the functions with the other material, in the same process
